@@ -1161,6 +1161,12 @@ class scope_extract:
             else:
                 node.__phil_join__(value)
         else:
+            if (
+                value is scope_extract_is_disabled
+                and node is not scope_extract_attribute_error
+            ):
+                # a disabled object must not disturb what its siblings of the same name supply
+                return
             if node is scope_extract_attribute_error or node is None:
                 # None: the placeholder left by a disabled sibling of the same name
                 node = scope_extract_list(optional=optional)
